@@ -153,8 +153,9 @@ class Policy:
             if self.has_policy(sec, ptype, rule):
                 return False
 
+        # add_policy skips a rule repeated inside the batch and keeps the priority order
         for rule in rules:
-            self[sec][ptype].policy.append(rule)
+            self.add_policy(sec, ptype, rule)
 
         return True
 
